@@ -621,6 +621,37 @@ def lhs_case(name, mk, info, n):
 # --------------------------------------------------------------------------
 
 
+def two_queries_case():
+    """history: the SAME product object (factors depend on an external parameter, not on each other) is asked for its
+    box twice with different parameter rows; each answer must be the exact box of its own row"""
+    cname = "encloses/(Circle[t]*Interval_y)/two_queries_same_object"
+
+    def body(env):
+        L = env.L
+        a = SH.circle(env, tag="A", dep="t")
+        b = SH.interval(env, tag="B", var="y")
+        d = a.dom * b.dom
+        env.assume(b.oset.positive({}, L))
+        out = []
+        for qi in range(2):
+            P, rows = SH.params(env, [("t", 1)], 1, tag="prm%d" % qi)
+            env.assume(a.oset.positive(rows[0], L))
+            box = d.bounding_box(P)
+            want = a.oset.bbox(rows[0], L) + b.oset.bbox({}, L)
+            out.append(dict(box=box.reshape(-1), want=want))
+        return dict(q=out)
+
+    def goals(o, L, env):
+        for qi, q in enumerate(o["q"]):
+            yield "layout_flat_2d[query%d]" % qi, len(q["box"]) == 2 * len(q["want"])
+            if len(q["box"]) == 2 * len(q["want"]):
+                for ax, (lo, hi) in enumerate(q["want"]):
+                    yield "tight_min[query%d,axis%d]" % (qi, ax), req(L, q["box"][2 * ax], lo)
+                    yield "tight_max[query%d,axis%d]" % (qi, ax), req(L, q["box"][2 * ax + 1], hi)
+
+    return Case(cname, body, goals, family="encloses/product_history", **_BOUNDS)
+
+
 def _catalog(tier):
     """the shape catalogue; its from_angles rotations are replaced by rotations whose counterexamples replay.
     Rotated polygons: the inner polygon is concrete (ConcShapeEnv: non-axis-aligned), the rotation, its centre and the
@@ -667,6 +698,7 @@ def cases(tier):
         if prim and poly and (not quick or not dep):
             # the same claim with the builtin min()/max() forking one path per ordering
             cs.append(encloses_case(name, mk, info, 1 if dep else 0, mode="fork", max_paths=400))
+    cs.append(two_queries_case())
     cs.append(fixed_angle_case("Rotate45(unit square)", "lead"))
     for j in ((1,) if quick else (1, 2, 3)):
         cs.append(fixed_angle_case("Rotate%d(Parallelogram)" % (90 * j), "quarter%d" % j))
